@@ -34,6 +34,7 @@ B0(L) == { << Ret(v) >> : v \in L }
 Compounds(In, L) ==
   LET in == In IN
      { << Comp("if", <<a, b>>) >> : a \in in, b \in in }
+  \cup { << Comp("if", <<a, b>>), Ret(v) >> : a \in in, b \in in, v \in L }        \* if/else followed by a fall-through return
   \cup { << Comp("ifonly", <<a>>), Ret(v) >> : a \in in, v \in L }
   \cup { << Comp("try", <<a, b>>) >> : a \in in, b \in in }
   \cup { << Comp("for", <<a>>), Ret(v) >> : a \in in, v \in L }
